@@ -2,6 +2,8 @@ mod async_state;
 mod return_rows;
 #[allow(clippy::module_inception)]
 mod signature;
+#[cfg(feature = "verif")]
+mod verif;
 
 use hashbrown::{HashMap, HashSet};
 
